@@ -267,6 +267,7 @@ def obligations(ctx):
         ob.finish(E)
     declared_signers(ctx)
     mint_signers(ctx)
+    input_reference_inputs(ctx)
 
 
 def declared_signers(ctx):
@@ -378,3 +379,77 @@ def mint_signers(ctx):
         ob.fail("no path")
     ob.cross_every = 4
     ob.finish(agg, lambda m, info=None: ("e2n_c18_declared_signers", []))
+
+
+def input_reference_inputs(ctx):
+    """'its script available exactly once - in the witness set, or through a declared reference input that then appears among the
+    body's reference inputs - together with its datum': TxInputsBuilder::get_ref_inputs hands on EVERY reference the witnesses of
+    the script-locked inputs declare (script by reference, datum by reference), whichever input declares it, and nothing else."""
+    import itertools
+    P = ctx.P
+    ob = Obligation(ctx, "c18_e2_input_reference_inputs_complete", "1-2 script hashes x 1-2 inputs each; witness of each input: native inline / native by reference / Plutus with script and datum each inline or by reference / absent",
+                    ["TxInputsBuilder::get_ref_inputs"], fallback_native="e2n_c18_ref_inputs")
+    agg = Engine(P)
+    KINDS = ["NI", "NR", "Pii", "Pir", "Pri", "Prr", "A"]      # P<script><datum>: i = inline, r = by reference
+    layouts = [(1,), (2,), (1, 1), (2, 1)]
+    nok = 0
+    for layout in layouts:
+        n = sum(layout)
+        pats = list(itertools.product(KINDS, repeat=n))
+        if ctx.tier == "quick" and n == 3:
+            pats = [p for p in pats if sum(1 for k in p if k in ("NR", "Pir", "Pri", "Prr")) >= 2 and p.count("A") == 0][::3]
+        for pat in pats:
+            E = Engine(P, max_loop=2 * n + 6)
+            E.U = agg.U
+            want = []
+            def mk(layout=layout, pat=pat, E=E, want=want):
+                del want[:]
+                groups, j = [], 0
+                for h, cnt in enumerate(layout):
+                    inner = []
+                    for _ in range(cnt):
+                        k = pat[j]
+                        if k == "A":
+                            w = opt(None)
+                        elif k == "NI":
+                            w = opt(VEnum("ScriptWitnessType", "NativeScriptWitness", [VEnum("NativeScriptSourceEnum", "NativeScript", [VLazy("ns%d" % j, "NativeScript"), VLazy("sg%d" % j, "Option<Ed25519KeyHashes>")])]))
+                        elif k == "NR":
+                            w = opt(VEnum("ScriptWitnessType", "NativeScriptWitness", [VEnum("NativeScriptSourceEnum", "RefInput", [VLazy("nref%d" % j, "TransactionInput"), VLazy("nh%d" % j, "ScriptHash"),
+                                                                                                                                  VLazy("sg%d" % j, "Option<Ed25519KeyHashes>"), VInt(40, "usize")])]))
+                            want.append("nref%d" % j)
+                        else:
+                            script = VEnum("PlutusScriptSourceEnum", "Script", [VLazy("ps%d" % j, "PlutusScript"), VLazy("psg%d" % j, "Option<Ed25519KeyHashes>")]) if k[1] == "i" else \
+                                VEnum("PlutusScriptSourceEnum", "RefInput", [E.mk_struct("PlutusScriptRef", input_ref=VLazy("sref%d" % j, "TransactionInput")), VLazy("psg%d" % j, "Option<Ed25519KeyHashes>")])
+                            datum = opt(VEnum("DatumSourceEnum", "Datum", [VLazy("d%d" % j, "PlutusData")])) if k[2] == "i" else opt(VEnum("DatumSourceEnum", "RefInput", [VLazy("dref%d" % j, "TransactionInput")]))
+                            if k[2] == "r":
+                                want.append("dref%d" % j)
+                            if k[1] == "r":
+                                want.append("sref%d" % j)
+                            w = opt(VEnum("ScriptWitnessType", "PlutusScriptWitness", [E.mk_struct("PlutusWitness", script=script, datum=datum, redeemer=VLazy("red%d" % j, "Redeemer"))]))
+                        inner.append(VStruct("()", [VLazy("txin%d" % j, "TransactionInput"), w]))
+                        j += 1
+                    groups.append(VStruct("()", [VLazy("sh%d" % h, "ScriptHash"), VSeq(inner, "map")]))
+                rw = E.mk_struct("InputsRequiredWitness", scripts=VSeq(groups, "map"))
+                return [R(E.mk_struct("TxInputsBuilder", required_witnesses=rw), "self")]
+            def from_vec(E_, c, a):
+                v = VM.deref(E_, a[0])
+                E_.trace.append(("refs", [VM.deref(E_, x).path if isinstance(VM.deref(E_, x), VLazy) else repr(VM.deref(E_, x)) for x in v.items]))
+                return VLazy("ref_inputs", "TransactionInputs")
+            E.extra_intrinsics[r"TransactionInputs::from_vec$"] = from_vec
+            try:
+                outs = E.explore("TxInputsBuilder::get_ref_inputs", mk, max_paths=50)
+            except Unsupported as e:
+                ob.fail("layout %s witnesses %s: cannot be executed (%s)" % (layout, "/".join(pat), str(e)[:160])); continue
+            for o in outs:
+                if o.kind != "return":
+                    ob.vc("no panic (%s %s)" % (o.kind, o.msg[:80]), o.pc, z3.BoolVal(False)); continue
+                got = [t[1] for t in o.trace if t[0] == "refs"]
+                if len(got) != 1:
+                    ob.fail("the reference inputs are not built exactly once"); continue
+                nok += 1
+                if sorted(got[0]) != sorted(want):
+                    ob.violation("layout %s witnesses %s: the witnesses declare the reference inputs %s, get_ref_inputs hands on %s" % (layout, "/".join(pat), sorted(want), sorted(got[0])))
+            agg.stats["paths"] += E.stats["paths"]; agg.stats["feasibility_queries"] += E.stats["feasibility_queries"]; agg.stats["functions"] |= E.stats["functions"]
+    if nok < 20:
+        ob.fail("only %d witness patterns executed" % nok)
+    ob.finish(agg, lambda m, info=None: ("e2n_c18_ref_inputs", []))
